@@ -12,7 +12,8 @@ EXTRA = ["RotoV.Model.TraceSpec", "RotoV.Lemmas.TraceSpec", "RotoV.Lemmas.TraceS
 
 def search(ctx):
     """A larger, seed-shifted run of the trace correspondence: the hand-written
-    corpus (one program per clause of the statement) first, then generated
+    corpus (one program per clause of the statement and per class: written order of
+    record fields, field targets) first, then generated
     programs; every difference is minimised to a small script + arguments."""
     if ctx.build_harness("c08"):
         ctx.harness("c08", ["run", ctx.seed + 15485863, "search"], timeout=6000, name="search:c08")
@@ -45,7 +46,10 @@ def run(ctx):
     ]
     return ctx.finish(
         level="proof",
-        rule="16 hand-written programs (one per clause of the statement) + type-directed generated programs whose "
+        rule="99 hand-written programs run first (16: one per clause of the statement; 36: a record literal in each of the six "
+             "orders of its three fields x six shapes; 12: a field as target of (compound) assignment / left operand, per field; "
+             "35: match, pattern variant x examinee variant, one named variant + `_` and a guarded `_` between two variants) "
+             "+ type-directed generated programs (record literals in a random written order, typed or anonymous) whose "
              "sub-expressions at every position call logging host functions, x 8 argument tuples each; a class is "
              "distinct by program text with >= 1 non-empty agreeing trace, or by position signature "
              "(parent construct, child index, effectful child construct)",
